@@ -31,7 +31,14 @@ def m_abs(it, x):
 
 def _minmax(it, args, is_min):
     if len(args) == 1:
-        args = list(args[0])
+        a0 = args[0]
+        c = a0 if isinstance(a0, list) or (isinstance(a0, tuple) and not (a0 and isinstance(a0[0], str))) else it.concrete_iter(a0)
+        if c is None:
+            # extremum of a symbolic iterable: an unconstrained value (sound over-approximation: every behaviour of the real
+            # extremum is a behaviour of the havoc'ed one); an empty iterable raises ValueError in Python, not modelled: noted
+            it.ctx.notes.append('extremum-of-symbolic-iterable-havoced')
+            return it.ctx.fresh('max' if not is_min else 'min')
+        args = list(c)
     cur = args[0]
     for b in args[1:]:
         if isinstance(cur, float) or isinstance(b, float):       # infinities
@@ -76,6 +83,17 @@ def m_sqrt(it, x):
     it.ctx.oblige("domain:sqrt-arg-nonneg", x >= 0, kind='domain')
     r = it.ctx.fresh('sqrt')
     it.ctx.assume(x >= 0, r >= 0, r * r == x)       # assert-then-assume
+    return r
+
+
+def m_exp(it, x):
+    """math.exp over the reals WITH the one float effect that matters for control flow: the result underflows to 0.0 for
+    arguments below about -745 (so exp(x) > 0 is not a tautology)."""
+    if not z3.is_expr(x):
+        import math
+        return Fraction(1) if num(x) == 0 else to_z3(Fraction(repr(math.exp(float(num(x))))))
+    r = it.ctx.fresh('exp')
+    it.ctx.assume(r >= 0, z3.Implies(x >= -700, r > 0), z3.Implies(x >= 0, r >= 1), z3.Implies(x <= 0, r <= 1))
     return r
 
 
@@ -318,6 +336,7 @@ BUILTINS['logging'] = ModVal('logging')
 BUILTINS[('math', 'sqrt')] = Model('math.sqrt', m_sqrt)
 BUILTINS[('math', 'ceil')] = Model('math.ceil', m_ceil)
 BUILTINS[('math', 'log')] = Model('math.log', m_log)
+BUILTINS[('math', 'exp')] = Model('math.exp', m_exp)
 BUILTINS[('math', 'fabs')] = Model('math.fabs', m_abs)
 BUILTINS[('np', 'isclose')] = Model('np.isclose', m_isclose)
 BUILTINS[('np', 'allclose')] = Model('np.allclose', m_allclose)
